@@ -325,12 +325,14 @@ theorem keepR_delete : ∀ (fuel : Nat) (o : ObjId) (st : St), KeepR sch st (del
             · split
               · exact KeepR.ok (Keep.refl _ _)
               · split
-                · exact KeepR.ok (Keep.refl _ _)
+                · exact KeepR.err _ _ _ _
                 · split
-                  · exact keepR_iter (fun x st => ih x st) _ _
+                  · exact KeepR.ok (Keep.refl _ _)
                   · split
-                    · exact keepR_setColl (fun x st => ih x st) true o c [] s
-                    · exact KeepR.err _ _ _ _
+                    · exact keepR_iter (fun x st => ih x st) _ _
+                    · split
+                      · exact keepR_setColl (fun x st => ih x st) true o c [] s
+                      · exact KeepR.err _ _ _ _
             · exact KeepR.ok (Keep.refl _ _)
           · intro st1 _
             apply keepR_iter
